@@ -1,12 +1,16 @@
 # gdb-python script (run by bin/asmtrace.py):
-#   gdb -q -batch -x asmtrace_gdb.py --args <asmprobe> <seed> <rounds>
-# Single-steps every call of the two assembly lookup routines and writes,
-# per call, the sequence of (pc - entry, instruction mnemonic, memory
-# operands relative to {table, destination, stack pointer at entry}) as
-# JSON lines to $ASMTRACE_OUT.
+#   gdb -q -batch -nx -x asmtrace_gdb.py --args <probe> <seed> <rounds>
+# Single-steps calls of the two assembly lookup routines and writes, per call, the
+# three argument words, the entry stack pointer and the sequence of
+# (pc - entry, mnemonic, [(R|W, absolute effective address)...]) as JSON lines to
+# $ASMTRACE_OUT.  $ASMTRACE_PER_INDEX calls are traced per (routine, index value);
+# further calls run at full speed.  Which argument is the table, the destination
+# and the index is inferred by bin/asmtrace.py from the accesses themselves (an
+# argument-order refactor must not confuse the monitor).
 import gdb, json, os, re
 
 OUT = os.environ["ASMTRACE_OUT"]
+PER = int(os.environ.get("ASMTRACE_PER_INDEX", "2"))
 FUNCS = {
     "gitlab.com/yawning/secp256k1-voi.lookupProjectivePoint": "projective",
     "gitlab.com/yawning/secp256k1-voi.lookupAffinePoint": "affine",
@@ -32,36 +36,23 @@ def u64(addr):
     return int(gdb.parse_and_eval("*(unsigned long*)%d" % addr)) & 0xFFFFFFFFFFFFFFFF
 
 
-def classify(addr, bases):
-    # nearest base not above addr within a sane window
-    best = None
-    for name, b, size in bases:
-        if b - 4096 <= addr < b + size + 4096:
-            off = addr - b
-            if best is None or abs(off) < abs(best[1]):
-                best = (name, off)
-    return best or ("abs", addr)
-
-
 bps = {}
+bpobjs = []
 for fn, kind in FUNCS.items():
     try:
         addr = int(gdb.parse_and_eval("(unsigned long)&'%s'" % fn))
-    except gdb.error:
-        try:
-            addr = int(gdb.parse_and_eval("(unsigned long)'%s'" % fn))
-        except gdb.error as e:
-            out.write(json.dumps(dict(error="symbol not found: %s (%s)" % (fn, e))) + "\n")
-            continue
-    bp = gdb.Breakpoint("*%d" % addr)
+    except gdb.error as e:
+        out.write(json.dumps(dict(error="symbol not found: %s (%s)" % (fn, e))) + "\n")
+        continue
+    bpobjs.append(gdb.Breakpoint("*%d" % addr))
     bps[addr] = kind
 
 if not bps:
     out.close()
     gdb.execute("quit 3")
 
+counts = {k: {} for k in FUNCS.values()}
 gdb.execute("run")
-arch = None
 calls = 0
 while True:
     try:
@@ -73,7 +64,6 @@ while True:
         break
     pc = reg("pc")
     if pc not in bps:
-        # stopped somewhere else (signal, exit) -> continue
         try:
             gdb.execute("continue")
         except gdb.error:
@@ -82,9 +72,21 @@ while True:
     kind = bps[pc]
     entry = pc
     sp0 = reg("rsp")
-    tbl, dst, idx = u64(sp0 + 8), u64(sp0 + 16), u64(sp0 + 24)
-    stride, nent, dsz = (0x68, 15, 96) if kind == "projective" else (0x40, 15, 64)
-    bases = [("tbl", tbl, stride * nent), ("dst", dst, dsz), ("sp", sp0, 32)]
+    args = [u64(sp0 + 8), u64(sp0 + 16), u64(sp0 + 24)]
+    small = [a for a in args if a < 4096]
+    idx = small[0] if len(small) == 1 else -1
+    c = counts[kind].get(idx, 0)
+    if c >= PER:
+        if all(counts[k].get(i, 0) >= PER for k in counts for i in range(16)):
+            for b in bpobjs:
+                b.delete()
+            bps = {}
+        try:
+            gdb.execute("continue")
+        except gdb.error:
+            break
+        continue
+    counts[kind][idx] = c + 1
     arch = frame.architecture()
     trace = []
     steps = 0
@@ -97,35 +99,33 @@ while True:
         mnem = asm.split()[0]
         ops = asm[len(mnem):].strip()
         mems = []
-        for m in MEM.finditer(ops):
-            disp = int(m.group(1), 0) if m.group(1) else 0
-            a = disp
-            if m.group(2):
-                a += reg(m.group(2))
-            if m.group(3):
-                a += reg(m.group(3)) * int(m.group(4) or 1)
-            a &= 0xFFFFFFFFFFFFFFFF
-            # AT&T syntax: the last operand is the destination
-            is_last = ops.rstrip().endswith(m.group(0))
-            write = is_last and not mnem.startswith(("cmp", "test", "ucomis", "comis", "bt", "push", "call", "jmp", "nop", "prefetch", "lea"))
-            if mnem.startswith("lea"):
-                continue
-            name, off = classify(a, bases)
-            mems.append([("W" if write else "R"), name, off])
+        if not mnem.startswith(("lea", "nop")):
+            for m in MEM.finditer(ops):
+                a = int(m.group(1), 0) if m.group(1) else 0
+                if m.group(2):
+                    a += reg(m.group(2))
+                if m.group(3):
+                    a += reg(m.group(3)) * int(m.group(4) or 1)
+                a &= 0xFFFFFFFFFFFFFFFF
+                # AT&T syntax: the last operand is the destination
+                is_last = ops.rstrip().endswith(m.group(0))
+                write = is_last and not mnem.startswith(("cmp", "test", "ucomis", "comis", "bt", "push", "call", "jmp", "prefetch"))
+                mems.append(["W" if write else "R", a])
         if mnem.startswith(("push", "call")):
-            mems.append(["W", "sp", reg("rsp") - 8 - sp0])
-        if mnem.startswith(("pop",)):
-            mems.append(["R", "sp", reg("rsp") - sp0])
-        trace.append([pc - entry, mnem, mems])
+            mems.append(["W", reg("rsp") - 8])
+        if mnem.startswith("pop"):
+            mems.append(["R", reg("rsp")])
         steps += 1
         if mnem.startswith("ret"):
-            mems.append(["R", "sp", reg("rsp") - sp0])
+            mems.append(["R", reg("rsp")])
+            trace.append([pc - entry, mnem, mems])
             returned = True
             gdb.execute("stepi", to_string=True)
             break
+        trace.append([pc - entry, mnem, mems])
         gdb.execute("stepi", to_string=True)
     gdb.execute("set scheduler-locking off")
-    out.write(json.dumps(dict(kind=kind, idx=idx, call=calls, returned=returned, steps=steps, trace=trace)) + "\n")
+    out.write(json.dumps(dict(kind=kind, args=args, sp=sp0, call=calls, returned=returned, steps=steps, trace=trace)) + "\n")
     out.flush()
     calls += 1
     try:
